@@ -240,9 +240,22 @@ def run_template(case, agg):
             ctx["output_envelope"] = os.path.join(d, "out.suit")
             ctx["artifacts_folder"] = art
             tpl = repo("ncs", "root_with_nordic_top_envelope.yaml.jinja2" if case["tpl"] == "root" else "nordic_top_envelope.yaml.jinja2")
-            text = build.render_template(tpl, ctx)
             yp = os.path.join(d, "root.yaml")
-            open(yp, "w").write(text)
+            if case.get("via") == "script":
+                # the build glue as the build system runs it: `python ncs/build.py template --core ... --version_file ...`
+                import subprocess, sys
+                args = [sys.executable, repo("ncs", "build.py"), "template", "--zephyr-base", os.path.join(d, "no-zephyr"), "--artifacts-folder", art,
+                        "--template-suit", tpl, "--output-suit", yp]
+                for c_ in cores:
+                    args += ["--core", c_]
+                if case["ver"] != "none":
+                    args += ["--version_file", os.path.join(d, "VERSION")]
+                pr = subprocess.run(args, cwd=d, capture_output=True, text=True, timeout=300, env=dict(os.environ, PYTHONPATH=os.environ["SVMC_REPO"]))
+                if pr.returncode != 0:
+                    raise RuntimeError(f"ncs/build.py template failed: rc={pr.returncode} {pr.stderr[-300:]}")
+            else:
+                text = build.render_template(tpl, ctx)
+                open(yp, "w").write(text)
             cmd_create.main(input_file=yp, input_format="AUTO", output_file=os.path.join(d, "out.suit"))
             out = open(os.path.join(d, "out.suit"), "rb").read()
         except BaseException as e:
@@ -288,9 +301,20 @@ def run_template(case, agg):
         agg.ok(key, f"ok:{case['tpl']}:images={len(case['imgs'])}", sample=case if (len(case["imgs"]) == 3 and case["ver"] == "explicit" and case["custom"] == [True, False, True] and case["variants"][0] == "signed") else None)
 
 
+def script_cases(tier):
+    out = []
+    for imgs, custom, ver, var in ((["radio", "application", "top"], [True, True, True], "version-file", "rich"), (["application"], [False, True, False], "explicit", "signed"),
+                                   (["radio"], [True, False, False], "none", "minimal"), (["top"], [False, False, False], "version-file", "minimal")):
+        out.append({"tpl": "root", "imgs": imgs, "custom": custom, "ver": ver, "variants": [var] * len(imgs), "via": "script"})
+    for ver in ("none", "version-file", "explicit"):
+        out.append({"tpl": "top", "imgs": ["secdom", "sysctrl"], "custom": [False, False, False], "ver": ver, "variants": ["rich", "minimal"], "via": "script"})
+    return out
+
+
 def plan(tier):
     return [
         CaseStage("root-template", lambda: root_cases(tier), run_template, disjoint=True, rule="image subsets x MPI names x version setting x child variants"),
         CaseStage("top-template", lambda: top_cases(tier), run_template, disjoint=True, rule="version setting x child variants"),
+        CaseStage("build-script", lambda: script_cases(tier), run_template, rule="ncs/build.py run as a script (template sub-command) for 7 configurations"),
         CaseStage("artifacts-folder-reused", lambda: reuse_cases(tier), run_template, rule="two consecutive builds in one process and one artifacts folder, children regenerated in between"),
     ]
